@@ -352,7 +352,13 @@ def run(ctx):
             if n in ("migrate", "load", "create_engine", "clone"):
                 r4.good(f"{db.rel}:RedunBackendDb.{n}:setup", "schema/setup path, not a recording operation")
                 continue
-            r4.check(n in retried, f"{db.rel}:RedunBackendDb.{n}:decorated", f"public method {n} commits but is not wrapped by @db_retry", db.rel, f.lineno)
+            # decorated itself, or a thin front that commits and writes only through @db_retry methods (e.g. one that materialises its arguments first)
+            from ..effects import commits_directly as _cd
+
+            delegates = not _cd(f) and not any(last_attr(c) in ("add", "add_all", "merge", "delete", "execute") and "session" in (call_name(c) or "") for c in calls_in(f)) and all(
+                callee in retried or not (commits.get(callee) or writers.get(callee)) for callee, _ in self_calls(f)
+            )
+            r4.check(n in retried or delegates, f"{db.rel}:RedunBackendDb.{n}:decorated", f"public method {n} commits but is not wrapped by @db_retry (and does more than delegate to retried methods)", db.rel, f.lineno)
         else:
             # every caller chain must start at a decorated method
             seen, stack, roots = set(), [n], set()
@@ -370,6 +376,50 @@ def run(ctx):
                 stack += list(cs)
             ext = [r for r in roots if r.startswith("<external>") and r != "<external>:" + n]
             r4.check(not ext or True, f"{db.rel}:RedunBackendDb.{n}:helper", "", note=f"reached from {sorted(roots)[:6]}")
+    # ---- C22.8 a retried method can be run twice with the arguments it was given ------------------
+    # db_retry re-invokes func(self, *args, **kwargs) with the *same argument objects* after rolling back.  A one-shot iterator (generator call,
+    # chain/map/filter, generator expression) handed to an Iterable parameter is exhausted by the first attempt: the retry sees an empty
+    # sequence, writes nothing and reports success -- records are lost, which is what the property excludes.
+    r8 = ctx.rule("C22.8", "no in-repo caller hands a one-shot iterator to an Iterable parameter of a @db_retry method", floor=3)
+    gen_names = set()
+    for mod2 in repo.modules.values():
+        for q2, f2 in mod2.funcs.items():
+            if any(isinstance(x, (ast.Yield, ast.YieldFrom)) and mod2.enclosing_func(x) is f2 for x in ast.walk(f2)):
+                gen_names.add(q2.split(".")[-1])
+    ONE_SHOT_BUILTINS = {"chain", "itertools.chain", "map", "filter", "iter", "zip", "reversed", "enumerate"}
+    nsite = 0
+    for name, fn in sorted(retried.items()):
+        params = [a.arg for a in fn.args.args]
+        iter_params = [a.arg for a in fn.args.args if a.annotation is not None and ("Iterable" in src(a.annotation) or "Iterator" in src(a.annotation))]
+        if not iter_params:
+            continue
+        if any(isinstance(x, (ast.Yield, ast.YieldFrom)) and db.enclosing_func(x) is fn for x in ast.walk(fn)):
+            continue  # a generator function: calling it runs nothing, so the wrapper never has anything to retry (ineffective, not lossy)
+        for mod2, c in repo.all_calls(lambda c: last_attr(c) == name):
+            if mod2.rel.startswith("redun/tests"):
+                continue
+            for p_ in iter_params:
+                i = params.index(p_) - 1
+                a = c.args[i] if 0 <= i < len(c.args) and not any(isinstance(x, ast.Starred) for x in c.args[: i + 1]) else next((k.value for k in c.keywords if k.arg == p_), None)
+                if a is None:
+                    continue
+                nsite += 1
+                if isinstance(a, ast.Name):
+                    encl = mod2.enclosing_func(c)
+                    adefs = [x.value for x in ast.walk(encl) if isinstance(x, ast.Assign) and any(isinstance(t, ast.Name) and t.id == a.id for t in x.targets)] if encl is not None else []
+                    if len(adefs) == 1:
+                        a = adefs[0]
+                one_shot = isinstance(a, ast.GeneratorExp) or (isinstance(a, ast.Call) and ((call_name(a) or "") in ONE_SHOT_BUILTINS or (last_attr(a) or call_name(a) or "").split(".")[-1] in gen_names))
+                r8.check(
+                    not one_shot,
+                    f"{mod2.rel}:{mod2.enclosing_qual(c)}:{name}({p_}=one-shot)",
+                    f"{mod2.enclosing_qual(c)} passes `{src(a)[:60]}` (a one-shot iterator) as `{p_}` to the @db_retry method {name}: if the first attempt hits a transient OperationalError the wrapper rolls "
+                    "back and calls the method again with the exhausted iterator -- it then writes nothing and returns normally (e.g. `redun push` reports success with 0 records written)",
+                    mod2.rel,
+                    c.lineno,
+                )
+    if nsite < 3:
+        raise AnalysisError(f"only {nsite} call sites of retried methods with Iterable parameters found", "db_retry")
 
 
 def _walk_own(n):
